@@ -31,7 +31,7 @@
 
   (This module imports `Ark.Proofs.CacheHistOps` for `FInv`/`finv_step`; it therefore cannot be
   imported together with `Ark.Proofs.CompIndex`/`QueryOps`/`QueryHist`, which define a second
-  `Ark.CIdx`.)
+  `Ark.CIdxH`.)
 
   Kernel-only proofs, core Lean only.
 -/
